@@ -378,6 +378,12 @@ pub fn data_pool(sz: Sz) -> Vec<u32> {
 }
 
 pub fn data(rng: &mut Rng, sz: Sz) -> u32 {
+    // constants named in the emulator's source (see util::source_dictionary)
+    if sz != Sz::B && rng.chance(1, 8) {
+        if let Some(v) = crate::util::dict_value(rng) {
+            return v & sz.mask();
+        }
+    }
     if rng.chance(1, 2) {
         let p = data_pool(sz);
         *rng.pick(&p)
@@ -395,6 +401,12 @@ pub fn regs(rng: &mut Rng) -> [u32; 8] {
     let mut r = [0u32; 8];
     for x in r.iter_mut() {
         *x = rng.u32();
+    }
+    // a constant named in the emulator's source
+    if rng.chance(1, 10) {
+        if let Some(v) = crate::util::dict_value(rng) {
+            r[rng.below(8) as usize] = v;
+        }
     }
     // coincidences between independent values: equal registers, equal halves, small constants
     if rng.chance(1, 6) {
@@ -473,6 +485,15 @@ pub fn addr_in(rng: &mut Rng, reg: Region, n: u32) -> u32 {
         Region::Vec => (0, 0xff),
     };
     let last = hi + 1 - n; // last start address that still fits
+    // an address named in the emulator's source, if it lies in this region
+    if rng.chance(1, 16) {
+        if let Some(v) = crate::util::dict_value(rng) {
+            let v = if n > 1 { v & 0xff_fffe } else { v & 0xff_ffff };
+            if v >= lo && v <= last {
+                return v;
+            }
+        }
+    }
     let mut a = match rng.below(8) {
         0 => lo + rng.below(8) as u32,
         1 => last - rng.below(8) as u32,
